@@ -185,6 +185,7 @@ def main(tier):
                 cfg["env"]["use_global_defender"] = True
                 cfg["coordinator"]["agents"]["Attacker"]["max_steps"] = r.choice([5, 6, 7, 8, 10])
                 return cfg
+            CC.probe_defender_rolls(cfail, coord_stats)
             CC.directed_defender(drv, rng, tabs, cfail, coord_stats, 16 if tier == "quick" else 300)
             CC.run_sessions(drv, rng, tabs, cfail, coord_stats, 80 if tier == "quick" else 800, 45,
                             {"bad": 0.01, "leave": 0.02, "roles": ["Attacker", "Attacker", "Defender"], "outcome_mix": True,
